@@ -14,6 +14,10 @@ NA = {
  "C17": "traversal is a pure function of (tree, callback return table); the visitor allocates nothing and meets no fault or schedule",
 }
 CHECKS = {
+ "C14": dict(level="exploration", ref="5.8",
+   technique="deterministic simulation: ambient locale as drifting configuration (global/thread x C/comma-decimal, synthesized locale), recording wrappers around uselocale/newlocale/duplocale/freelocale/setlocale with injected ENOMEM, allocation failures; differential oracle vs C-locale reference pass",
+   text="Every plan (parse calls reaching each outcome class, serialization with default and custom precision formats, format setter) runs twice: C-locale reference pass, then under one of the 6 locale configurations; observations must be byte-identical, the thread locale handle, global locale string and a printf probe must be unchanged after every library call on every return path, and every locale object created inside a call must be freed or consumed when it returns. duplocale/newlocale/malloc failures are attached to ops in the faulted batch.",
+   note="Comma locale is synthesized offline with localedef from /verif/locale; glibc locale functions are real behind recording wrappers; ' grouping flag formats excluded."),
  "C20": dict(level="fault_enumeration", ref="5.11",
    technique="deterministic simulation with fault injection: simulated fd layer (read/write/open/close seams) with scripted per-call transfer sizes; errno injected at every call index, open failures, every allocation index; differential oracle vs in-memory serialization/parse",
    text="Per document, API (to_fd, to_file, to_file_ext, from_fd, from_fd_ex, from_file) and transfer-size schedule: unfaulted run, then an injected errno at every read/write call index, three open() errnos, and every allocation index inside the call. Write side: bytes received equal the in-memory serialization on success and are a strict prefix on failure, failures reported with a new message, descriptors balanced (to_file closes once, to_fd never). Read side: result equals the in-memory parse with the same depth limit; errors give NULL + message; nothing leaks. Sampled over documents.",
